@@ -4,8 +4,10 @@ import (
 	"testing"
 
 	"verif/sim/kernel"
-	_ "verif/sim/rigs/valsetrig"
+	"verif/sim/rigs/c17rig"
 )
+
+func init() { kernel.Register(c17rig.Rig()) }
 
 func TestMain(m *testing.M) { kernel.Main(m, "C17") }
 func TestSim(t *testing.T)  { kernel.Worker(t, "C17") }
